@@ -223,7 +223,7 @@ def analyse(ctx, C, fn, rep):
         rep.unk('B9', name, str(e), loc=loc)
     try:
         C04_content.check(C, fn, name, dom, leaves, facts0, rep)
-        C04_content.check_sorted_move(C, fn, name, dom, leaves, facts0, rep, getattr(ls, 'exit_vals', {}))
+        C04_content.check_sorted_move(C, fn, name, dom, leaves, facts0, rep, getattr(ls, 'exit_roles', {}))
     except Unsupported as e:
         rep.unk('B8', name, str(e), loc=loc)
     sym = name
